@@ -47,7 +47,7 @@ def cases(shard, tier):
         ivs = [(s, e) for s in range(L) for e in range(s + 1, L + 1)]
         for k in ((1, 2) if tier == "quick" else (1, 2, 3)):
             for combo in itertools.product(ivs, repeat=k):
-                for val in ("int", "bool", "float"):
+                for val in ("int", "bool", "float", "default"):
                     yield ["iv", L, [list(c) for c in combo], val]
         return
     lens, pat = shard["lens"], shard["pat"]
@@ -286,12 +286,15 @@ def _check_iv(case, acc):
     from npstructures import RunLength2dArray
     _, L, combo, vk = case
     acc.feature("from_intervals")
-    val = {"int": 1, "bool": True, "float": 2.5}[vk]
+    val = {"int": 1, "bool": True, "float": 2.5, "default": 1}[vk]
     st = np.array([c[0] for c in combo])
     en = np.array([c[1] for c in combo])
     e = [[(val if s <= j < e_ else 0) for j in range(L)] for s, e_ in combo]
     acc.nontrivial()
     acc.state(("iv", L, tuple(map(tuple, combo)), vk))
+    if vk == "default":
+        _cmp(acc, "from_intervals(default value)", e, lambda: RunLength2dArray.from_intervals(st, en, L))
+        return
     _cmp(acc, "from_intervals", e, lambda: RunLength2dArray.from_intervals(st, en, L, val))
     _cmp(acc, "from_intervals-len", len(combo), lambda: len(RunLength2dArray.from_intervals(st, en, L, val)))
     _cmp(acc, "from_intervals-sum", [sum(r) for r in e], lambda: RunLength2dArray.from_intervals(st, en, L, val).sum(axis=-1), close=True)
